@@ -369,12 +369,15 @@ CLAIMED["C12"] = (
     "classified by a Python canonicaliser and by the Lean model on the same two trees; the table of changing accessors is "
     "regenerated and the obligation 'every one of them is a documented creator or a listed finding' closed by kernel "
     "evaluation; end to end, decks traversed completely (seeded order, repetitions, intermediate saves) and saved are "
-    "compared part by part (matched by relationship path) with the same decks saved straight after opening.",
-    "The per-accessor effect table is observed, i.e. sampled over documents (stated in the evidence); container sets and the "
-    "list of documented creators are fixed by hand from the property text and the docstrings.  Six undocumented creating "
-    "getters are listed as findings.",
+    "compared part by part (matched by relationship path) with the same decks saved straight after opening.  A static scan "
+    "of /repo's source (every public getter whose body calls something that creates, inserts or removes XML) is regenerated "
+    "with it, and a second obligation requires each such getter to have been seen creating, or to be documented, listed or "
+    "exempt for a stated reason.",
+    "The per-accessor effect table is observed, i.e. sampled over documents (stated in the evidence); container sets, the "
+    "list of documented creators and the exemptions of the static scan are fixed by hand from the property text and the "
+    "docstrings.  Seven undocumented creating getters are listed as findings.",
     "Lean 4 proof (invisibility of empty-container insertions lifted to paths and histories by induction) + observed effect "
-    "table with decide obligation + canonical-form correspondence + end-to-end comparison of saved packages",
+    "table and static creator scan with decide obligations + canonical-form correspondence + end-to-end comparison of saved packages",
     "DESIGN.md §5 C12",
 )
 
